@@ -118,6 +118,8 @@ Local Notation without_suffix_ch_loop := (without_suffix_ch_loop M).
 Local Notation strip_digits_loop := (strip_digits_loop M).
 Local Notation replace_ch1 := (replace_ch1 M).
 Local Notation without_suffix_nc_loop := (without_suffix_nc_loop M).
+Local Notation with_word := (with_word M TH PG OV jk true).
+Local Notation append_c := (append_c M TH PG OV jk true).
 Local Notation without_prefix_nc_loop := (without_prefix_nc_loop M TH PG OV jk true).
 
 (* what every producer needs from the subject: the invariant and a size below LIM *)
@@ -423,6 +425,155 @@ Proof.
   set (t := strip_ch_prefix_nc (abs s) ch max) in *. clearbody t.
   rewrite H, lenN_app. replace (lenN pre + lenN t - lenN t) with (lenN pre) by lia.
   apply dropN_app_exact.
+Qed.
+
+(* ---------------------------------------------------------------- WithInsertedWord *)
+
+Lemma is_nil_len l : is_nil l = (lenN l =? 0).
+Proof. destruct l; [reflexivity|]. rewrite lenN_cons. symmetry. apply N.eqb_neq. lia. Qed.
+
+(* InsertCharsAux(idx, w(), w.Length(), 1) for a separate non-empty String w *)
+Lemma ins_spec r idx w :
+  inv r -> src_ok w -> nulfree (src_bytes w) -> snd w <> 0 -> slen r + snd w + 1 <= LIM ->
+  let r' := snd (StrModel.insert_aux M TH PG OV jk true r idx (Some (fst w)) false (snd w) 1) in
+  inv r' /\ abs r' = l0_insert (abs r) idx (src_bytes w).
+Proof.
+  intros Ir W Fw Nw B r'. unfold r'.
+  assert (N0 : nthN 0 (fst w) <> 0) by (intros H; apply (src_first w W Fw) in H; contradiction).
+  destruct (insert_aux_ext r idx (fst w) (snd w) 1 Ir N0 Nw) as (s' & E & I' & A').
+  - destruct W as [L _]. lia.
+  - lia.
+  - rewrite E. cbn [snd]. split; trivial. rewrite A', concat_rep1. reflexivity.
+Qed.
+
+(* a copy (with extra preallocation) followed by the insertion of w *)
+Lemma copy_pre_insert o extra idx w :
+  src_ok o -> snd o < LIM -> src_ok w -> nulfree (src_bytes w) -> snd w <> 0 -> snd o + snd w + 1 <= LIM ->
+  let r := snd (StrModel.insert_aux M TH PG OV jk true (ctor_copy_pre o extra) idx (Some (fst w)) false (snd w) 1) in
+  inv r /\ abs r = l0_insert (src_bytes o) idx (src_bytes w).
+Proof.
+  intros O Bo W Fw Nw B.
+  destruct (ctor_copy_pre_spec o extra O Bo) as (Ic & Ac).
+  assert (Lc : slen (ctor_copy_pre o extra) = snd o) by (rewrite <- (lenN_abs _ Ic), Ac; now apply lenN_src_bytes).
+  rewrite <- Ac. apply ins_spec; trivial. lia.
+Qed.
+
+Lemma with_word_spec s idx w sep :
+  subj_ok s -> nulfree (abs s) -> src_ok w -> nulfree (src_bytes w) -> nulfree sep -> snd w < LIM ->
+  slen s + snd w + 2 * lenN sep + 1 <= LIM ->
+  inv (with_word s idx w sep) /\ abs (with_word s idx w sep) = l0_with_word (abs s) idx (src_bytes w) sep.
+Proof.
+  intros Sb F W Fw Fs Bw B. pose proof Sb as [I Bs].
+  assert (Ls : lenN (abs s) = slen s) by apply (lenN_abs s I).
+  assert (Lw : lenN (src_bytes w) = snd w) by now apply lenN_src_bytes.
+  assert (Ome : src_ok (src_of s)) by now apply src_ok_of.
+  unfold StrModel.with_word, l0_with_word. rewrite !is_nil_len, Lw, Ls.
+  destruct (snd w =? 0) eqn:E1; [now apply copy_spec|]. apply N.eqb_neq in E1.
+  destruct (lenN sep =? 0) eqn:E2.
+  { apply (copy_pre_insert (src_of s) (snd w) idx w); trivial. cbn [src_of snd]. apply N.eqb_eq in E2. lia. }
+  apply N.eqb_neq in E2.
+  assert (Osep : src_ok (src_lit sep)) by apply src_ok_lit.
+  assert (Fsep : nulfree (src_bytes (src_lit sep))) by now rewrite src_bytes_lit.
+  assert (Csep : carg_ok (CLit sep)) by (split; [exact Fs|unfold LIM in *; lia]).
+  destruct (slen s <=? idx) eqn:E3.
+  { (* appended *)
+    apply N.leb_le in E3.
+    destruct ((slen s =? 0) || ends_with (abs s) sep || starts_with (src_bytes w) sep).
+    - destruct (copy_pre_insert (src_of s) (snd w) NOLIMIT w Ome Bs W Fw E1) as (I' & A'); [cbn [src_of snd]; lia|].
+      split; trivial. rewrite A'. change (src_bytes (src_of s)) with (abs s). apply l0_insert_back. unfold NOLIMIT, LIM in *. lia.
+    - destruct (with_insert_spec s NOLIMIT (src_lit sep) NOLIMIT Sb Osep Fsep) as (Iw & Aw); [cbn [src_lit snd]; lia|].
+      set (x := StrModel.with_insert M TH PG OV jk true s NOLIMIT (src_lit sep) NOLIMIT) in *.
+      rewrite src_bytes_lit in Aw. rewrite l0_insert_back in Aw by (unfold NOLIMIT, LIM in *; lia).
+      rewrite takeN_all in Aw by (unfold NOLIMIT, LIM in *; lia).
+      assert (Lx : slen x = slen s + lenN sep) by (rewrite <- (lenN_abs x Iw), Aw, lenN_app; lia).
+      destruct (copy_pre_insert (src_of x) (snd w) NOLIMIT w (src_ok_of _ Iw)) as (I' & A'); trivial;
+        try (cbn [src_of snd]; unfold LIM in *; lia).
+      split; trivial. rewrite A'. change (src_bytes (src_of x)) with (abs x). rewrite Aw.
+      apply l0_insert_back. rewrite lenN_app. unfold NOLIMIT, LIM in *. lia. }
+  apply N.leb_gt in E3.
+  destruct (idx =? 0) eqn:E4.
+  { (* prepended *)
+    destruct ((slen s =? 0) || starts_with (abs s) sep || ends_with (src_bytes w) sep).
+    - destruct (copy_pre_insert (src_of s) (snd w) 0 w Ome Bs W Fw E1) as (I' & A'); [cbn [src_of snd]; lia|].
+      split; trivial. rewrite A'. change (src_bytes (src_of s)) with (abs s). apply l0_insert_front.
+    - destruct (with_insert_spec s 0 (src_lit sep) NOLIMIT Sb Osep Fsep) as (Iw & Aw); [cbn [src_lit snd]; lia|].
+      set (x := StrModel.with_insert M TH PG OV jk true s 0 (src_lit sep) NOLIMIT) in *.
+      rewrite src_bytes_lit, l0_insert_front in Aw.
+      rewrite takeN_all in Aw by (unfold NOLIMIT, LIM in *; lia).
+      assert (Lx : slen x = slen s + lenN sep) by (rewrite <- (lenN_abs x Iw), Aw, lenN_app; lia).
+      destruct (copy_pre_insert (src_of x) (snd w) 0 w (src_ok_of _ Iw)) as (I' & A'); trivial;
+        try (cbn [src_of snd]; unfold LIM in *; lia).
+      split; trivial. rewrite A'. change (src_bytes (src_of x)) with (abs x). rewrite Aw. apply l0_insert_front. }
+  apply N.eqb_neq in E4.
+  (* in the middle *)
+  destruct (sub_spec s idx NOLIMIT Sb) as (Ia & Aa).
+  assert (Labs : lenN (abs s) < LIM) by (rewrite Ls; exact Bs).
+  rewrite (l0_sub_from _ _ Labs) in Aa.
+  set (after := ctor_sub (src_of s) idx NOLIMIT) in *.
+  assert (La : slen after = slen s - idx) by (rewrite <- (lenN_abs after Ia), Aa, lenN_dropN; lia).
+  destruct (sub_spec s 0 idx Sb) as (Ih & Ah).
+  assert (Eh : l0_sub (abs s) 0 idx = takeN idx (abs s)).
+  { unfold l0_sub. rewrite N.min_l by lia. assert (X : (0 <? idx) = true) by (apply N.ltb_lt; lia). rewrite X.
+    now rewrite dropN_0, N.sub_0_r. }
+  rewrite Eh in Ah. set (head := ctor_sub (src_of s) 0 idx) in *.
+  assert (Lh : slen head = idx) by (rewrite <- (lenN_abs head Ih), Ah, lenN_takeN; lia).
+  set (extra := u32 (u32 (snd w + slen after) + u32 (lenN sep * 2))).
+  destruct (ctor_copy_pre_spec (src_of head) extra (src_ok_of _ Ih)) as (I0 & A0); [cbn [src_of snd]; unfold LIM in *; lia|].
+  change (src_bytes (src_of head)) with (abs head) in A0. rewrite Ah in A0.
+  set (r0 := ctor_copy_pre (src_of head) extra) in *.
+  assert (L0 : slen r0 = idx) by (rewrite <- (lenN_abs r0 I0), A0, lenN_takeN; lia).
+  set (a := takeN idx (abs s)) in *. set (b := dropN idx (abs s)) in *.
+  assert (Fa : nulfree a) by now apply nulfree_takeN.
+  assert (Fb : nulfree b) by now apply nulfree_dropN.
+  assert (Lla : lenN a = idx) by (unfold a; rewrite lenN_takeN; lia).
+  assert (Llb : lenN b = slen s - idx) by (unfold b; rewrite lenN_dropN; lia).
+  rewrite A0, L0, Aa, La, Lla, Llb.
+  assert (X0 : (0 <? idx) = true) by (apply N.ltb_lt; lia). rewrite X0.
+  assert (X1 : (idx =? 0) = false) by (apply N.eqb_neq; lia). rewrite X1.
+  assert (X2 : (0 <? slen s - idx) = true) by (apply N.ltb_lt; lia). rewrite X2.
+  assert (X3 : (slen s - idx =? 0) = false) by (apply N.eqb_neq; lia). rewrite X3.
+  cbn [negb andb].
+  (* r1: the head, with a separator when needed *)
+  set (c1 := negb (ends_with a sep) && negb (starts_with (src_bytes w) sep)).
+  set (r1 := if c1 then append_c r0 (CLit sep) else r0).
+  set (l1 := if c1 then a ++ sep else a).
+  assert (R1 : inv r1 /\ abs r1 = l1).
+  { unfold r1, l1. destruct c1; [|split; trivial].
+    destruct (append_c_spec r0 (CLit sep) I0) as (Y1 & Y2); trivial.
+    - now rewrite A0.
+    - cbn [clit_of]. unfold LIM in *. lia.
+    - split; trivial. rewrite Y2, A0. reflexivity. }
+  destruct R1 as (I1 & A1).
+  assert (Ll1 : lenN l1 <= idx + lenN sep) by (unfold l1; destruct c1; rewrite ?lenN_app; lia).
+  assert (L1 : slen r1 = lenN l1) by (rewrite <- (lenN_abs r1 I1), A1; reflexivity).
+  (* r2: the word appended *)
+  destruct (ins_spec r1 NOLIMIT w I1 W Fw E1) as (I2 & A2); [unfold LIM in *; lia|].
+  set (r2 := snd (StrModel.insert_aux M TH PG OV jk true r1 NOLIMIT (Some (fst w)) false (snd w) 1)) in *.
+  rewrite A1, l0_insert_back in A2 by (unfold NOLIMIT, LIM in *; lia).
+  assert (L2 : slen r2 = lenN l1 + snd w) by (rewrite <- (lenN_abs r2 I2), A2, lenN_app; lia).
+  rewrite A2.
+  (* r3: a separator before the tail when needed *)
+  set (c3 := negb (ends_with (l1 ++ src_bytes w) sep) && negb (starts_with b sep)).
+  set (r3 := if c3 then append_c r2 (CLit sep) else r2).
+  set (l3 := if c3 then (l1 ++ src_bytes w) ++ sep else l1 ++ src_bytes w).
+  assert (F2 : nulfree (l1 ++ src_bytes w)).
+  { apply nulfree_app; split; trivial. unfold l1. destruct c1; trivial. apply nulfree_app; split; trivial. }
+  assert (R3 : inv r3 /\ abs r3 = l3).
+  { unfold r3, l3. destruct c3; [|split; trivial].
+    destruct (append_c_spec r2 (CLit sep) I2) as (Y1 & Y2); trivial.
+    - now rewrite A2.
+    - cbn [clit_of]. unfold LIM in *. lia.
+    - split; trivial. rewrite Y2, A2. reflexivity. }
+  destruct R3 as (I3 & A3).
+  assert (Ll3 : lenN l3 <= idx + 2 * lenN sep + snd w).
+  { unfold l3. destruct c3; rewrite ?lenN_app, ?Lw; lia. }
+  assert (L3 : slen r3 = lenN l3) by (rewrite <- (lenN_abs r3 I3), A3; reflexivity).
+  (* the tail *)
+  destruct (plus_spec r3 (src_of after)) as (I4 & A4).
+  - split; trivial. unfold LIM in *. lia.
+  - now apply src_ok_of.
+  - cbn [src_of snd]. unfold LIM in *. lia.
+  - split; trivial. rewrite A4, A3. change (src_bytes (src_of after)) with (abs after). rewrite Aa. reflexivity.
 Qed.
 
 End Prod.
